@@ -241,4 +241,11 @@ def Flow.callVia {τ σ α β ρ : Type} (o : Outcome τ α) (put : τ → σ) (
   | .thrown e t => .exit (.thrown e (put t))
   | .nofuel => .exit .nofuel
 
+/-- `std::strlen(p)`: the distance to the first NUL at or after the cursor (defined when there is one: `cstrOk`) -/
+def strlen (b : Buf) (i : Int) : Int := (((b.drop i.toNat).takeWhile (fun c => c != 0)).length : Int)
+
+/-- the bytes `lit` lie in the array from index `i` on (a string literal that a static local pointer points at: the
+    translation has ONE array, so the literal is part of it; the index is an extra parameter of the function) -/
+def litAt (b : Buf) (i : Int) (lit : List UInt8) : Bool := decide (0 ≤ i) && ((b.drop i.toNat).take lit.length == lit)
+
 end Osmium.CxxSem
